@@ -107,3 +107,43 @@ func ZZSegment(n, l1, l2, l3 int) {
 	}
 	vReach("end")
 }
+
+// ZZSegmentBig (C09/C10): truncation of a LARGE discarded section. One small record (symbolic byte) is
+// followed by three records of `big` bytes each, so that the section discarded by Truncate(base) spans
+// several 4 KiB pages. After the truncation every byte behind the kept record is zero, recovery of the
+// buffer (as on reopen) ends exactly at the kept record — no stale record of the discarded tail is accepted
+// as valid — and a new record appended after the truncation is the only thing recovery finds behind it.
+func ZZSegmentBig(big int) {
+	n := 3*(big+12) + 64
+	base := int64(5)
+	ms := &readWriteSegment{
+		c:             &segmentConfig{codec: codec.SupportedCodecs[0], baseOffset: base},
+		txnMappedFile: make([]byte, n),
+		segmentSize:   uint32(n),
+		lastOffset:    base - 1,
+		writingIdx:    make([]byte, 0, 64),
+	}
+	first := vBytes("first", 1)
+	vAssert("append-first", ms.Append(base, first) == nil)
+	for r := 0; r < 3; r++ {
+		p := make([]byte, big)
+		for i := range p {
+			p[i] = byte(1 + (i+r)%250)
+		}
+		vAssert("append-big", ms.Append(base+1+int64(r), p) == nil)
+	}
+	vAssert("four-records", ms.LastOffset() == base+3)
+	_ = ms.Truncate(base)
+	vAssert("truncated", ms.LastOffset() == base)
+	for j := 12 + 1; j < n; j++ {
+		vAssert("every-discarded-byte-is-zero", ms.txnMappedFile[j] == 0)
+	}
+	c0 := base
+	_, _, off, last, rerr := ms.c.codec.RecoverIndex(ms.txnMappedFile, 0, base, &c0)
+	vAssert("recovery-ends-at-the-kept-record", rerr == nil && last == base && off == ms.currentFileOffset)
+	vAssert("append-after-truncation", ms.Append(base+1, []byte{9, 9}) == nil)
+	c1 := base + 1
+	_, _, _, last, rerr = ms.c.codec.RecoverIndex(ms.txnMappedFile, 0, base, &c1)
+	vAssert("recovery-finds-only-the-new-record", rerr == nil && last == base+1)
+	vReach("end")
+}
